@@ -35,6 +35,8 @@ type HarnessSpec struct {
 	FastMs    int            `json:"fast_ms"`
 	AltMs     int            `json:"alt_ms"`
 	NoAlt     bool           `json:"no_alt"`
+	// IntMode: send every query in the integer encoding (bit-vectors as bounded mathematical integers with explicit wrap-around)
+	IntMode   bool           `json:"int_mode"`
 	MapPerms  bool           `json:"map_perms"`
 	SkipInit  []string       `json:"skip_init"`
 	Note      string         `json:"note"`
@@ -280,6 +282,7 @@ func (e *Engine) RunHarness(h *HarnessSpec, fn *ssa.Function, workers int) *Harn
 				return
 			}
 			defer s.Close()
+			s.IntMode = h.IntMode
 			if d := os.Getenv("GOSMT_SMTLOG"); d != "" {
 				if lf, err := os.Create(fmt.Sprintf("%s/%s-w%d.smt2", d, h.Name, wi)); err == nil {
 					defer lf.Close()
@@ -500,11 +503,23 @@ func (p *Path) inputsFromModelWith(extra *term.T) ([]ReplayInput, []string, stri
 		}
 	}
 	_ = nIn
+	// On a path whose condition depends on an uninterpreted function the native
+	// run may take another path: the observations are not comparable then.
+	pcUF := false
+	for _, c := range p.pc {
+		if c.UFDep {
+			pcUF = true
+		}
+	}
 	var obs []string
 	for _, o := range p.obs {
 		vs := vals[k : k+len(o.Terms)]
 		k += len(o.Terms)
-		obs = append(obs, o.Label+"="+fmtObs(o, vs))
+		if pcUF {
+			obs = append(obs, o.Label+"=?")
+		} else {
+			obs = append(obs, o.Label+"="+fmtObs(o, vs))
+		}
 	}
 	return ins, obs, ""
 }
